@@ -7,6 +7,18 @@ HERE = os.path.dirname(os.path.dirname(os.path.abspath(__file__)))
 
 # id -> (level category, technique, level text, level note, design ref)
 CHECKS = {
+    'C12': ('exploration', 'deep snapshots of model/configuration around every build + per-build comparison with a fresh child interpreter',
+            'Held on the histories of the run (3-12 builds over shared parsed models, valid and invalid configurations, edited model variants, reused Builder/Configuration objects).',
+            'Observable change = difference of deep structural snapshots; reference = same (document, configuration) built alone in a fresh process.',
+            'DESIGN.md section 3 C12'),
+    'C19': ('exploration', 'line predicate on rendered comments vs independent line splitter + comment-stripped and g++-lexer residue diff of build pairs',
+            'Held on the comment texts and build pairs of the run (hostile strings with every line boundary, */, #include, backslash, trigraph).',
+            'g++ -fpreprocessed -E -P used only as comment stripper; one optional space between // and the text accepted.',
+            'DESIGN.md section 3 C19'),
+    'C20': ('exploration', 'parse-back of rendered declarations/definitions with an independent tokenizer + g++/clang++ -fsyntax-only on random compositions',
+            'Held on the generated descriptions and compiled compositions of the run.',
+            'Tokenizer vlib/cpptok.py covers the signatures cpp_gen can emit; compositions restricted to what C++ itself allows.',
+            'DESIGN.md section 3 C20'),
     'C03': ('exploration', 'return/exception observer on PortsCfg, match() and Builder.build decided by a three-valued reference matcher',
             'Held on the enumerated and sampled configurations of the run; per side the selection pairs over a small universe are '
             'enumerated exhaustively at match and build level, provides x requires products and larger port sets are sampled.',
